@@ -196,10 +196,22 @@ def _s3(program, res):
             outer = [unparse(b.cond) for b, lab in g.lexical_guards(n) if lab is True]
             if any("op.group_by" in o for o in outer):
                 assigns = [s for s in ast.walk(n.stmt) if isinstance(s, ast.Assign) and isinstance(s.targets[0], ast.Name)]
-                if any("[None]" in unparse(a.value) and "DataFrame" in unparse(a.value) for a in assigns):
+                one_row = [dc for a in assigns if "DataFrame" in unparse(a.value) for dc in ast.walk(a.value)
+                           if isinstance(dc, ast.DictComp) and isinstance(dc.value, ast.List) and len(dc.value.elts) == 1]
+                if one_row:
                     ok = True
+                    # a count over no rows is 0 (on Pandas, and COUNT in SQL), not missing: the row's cells have to depend on the operator
+                    elt = one_row[0].value.elts[0]
+                    names = {x.id for x in ast.walk(elt) if isinstance(x, ast.Name)}
+                    count_aware = not (isinstance(elt, ast.Constant) and elt.value is None) and bool(names)
+                    if count_aware:
+                        res.ok("C09-S3", "Polars un-grouped project over no rows: counting operators give 0, the others a missing value")
+                    else:
+                        res.fail_at("C09-S3", pm, "empty-input-counts-are-null",
+                                    "the one row restored for an empty un-grouped input is all None: _size(), count() and nunique() over no rows come back "
+                                    "missing on Polars and 0 on Pandas (and in SQL): select_rows('n == 0') after it keeps the row on Pandas only", one_row[0])
     if ok:
-        res.ok("C09-S3", "Polars un-grouped project restores one all-null row when the aggregation returned no row")
+        res.ok("C09-S3", "Polars un-grouped project restores one row when the aggregation returned no row")
     else:
         res.fail_at("C09-S3", pm, "empty-input-row", "the un-grouped Polars project has no zero-row special case: an empty input "
                     "yields 0 rows instead of exactly one")
@@ -212,6 +224,10 @@ def run(program, res, tier):
     res.rule("C09-S2", "Pandas groupby on user keys keeps the null-key group")
     res.rule("C09-S3", "Polars project groups by the declared keys; empty un-grouped input yields one row")
     _s1(program, res)
+    # narrowing by select_columns / drop_columns must not empty the select list of an aggregating sub-step (shared with C08)
+    from . import c08 as _c08
+    from ..report import Only as _Only
+    _c08._s4b_inplace_narrowing(program, _Only(res, {"C08-S4": "C09-S1"}))
     _s2(program, res)
     _s3(program, res)
     res.rule("C09-S4", "SQL windowed extend: the window's keys are the declared ones (no merge into the SELECT that recomputes them)")
